@@ -1,3 +1,13 @@
 import SwhVerif.Props.C20
 #print axioms Swh.C20.toposort_perm
 #print axioms Swh.C20.toposort_parents_first
+#print axioms Swh.C20.run_perm
+#print axioms Swh.C20.run_parents_first
+#print axioms Swh.C20.run_never_stuck
+#print axioms Swh.C20.run_never_stuck_length
+#print axioms Swh.C20.prefix_parents_first
+#print axioms Swh.C20.run_extends
+#print axioms Swh.C20.fifo_isRun
+#print axioms Swh.C20.lifo_isRun
+#print axioms Swh.C20.toposortBy_isRun
+#print axioms Swh.C20.isRun_exact
